@@ -37,14 +37,14 @@ Theorem C19_stops_on_success_cancel_noretry : forall iv maxd cancel pick0 calls 
   (forall i, (i < length atts)%nat -> a_out (nth i atts att0) = c_out (nth i calls call0)) /\
   (cancel = None -> r <> RCtxCanceled) /\
   (r = RPending -> length atts = length calls) /\
-  (r = RGiveUpNil \/ r = RLoopExit -> (maxd <= te)%Z).
+  (r = RGiveUp \/ r = RLoopExit -> (maxd <= te)%Z).
 Proof. exact stops_on_success_cancel_noretry. Qed.
 Print Assumptions C19_stops_on_success_cancel_noretry.
 
 Theorem C19_retries_while_failing : forall iv maxd pick0 calls atts r te, iv <> [] ->
   Forall (fun c => c_out c = OPlain) calls ->
   do_with_retry iv maxd None pick0 calls = (atts, r, te) ->
-  (r = RPending /\ length atts = length calls) \/ ((r = RGiveUpNil \/ r = RLoopExit) /\ (maxd <= te)%Z).
+  (r = RPending /\ length atts = length calls) \/ ((r = RGiveUp \/ r = RLoopExit) /\ (maxd <= te)%Z).
 Proof. exact retries_while_failing. Qed.
 Print Assumptions C19_retries_while_failing.
 
@@ -55,13 +55,22 @@ Theorem C19_cancel_prompt : forall iv maxd cn pick0 calls atts r te, iv <> [] ->
 Proof. exact cancel_prompt. Qed.
 Print Assumptions C19_cancel_prompt.
 
-(** noted, not a finding of the check: after maxRetryDuration the loop returns nil although
-    every attempt failed *)
-Theorem C19_nil_means_success_refuted : exists iv maxd calls atts te,
+(** nil means success, also at the horizon: the loop returns nil only when its last attempt
+    succeeded.  (Tied with the horizon shrunk to a fraction of a second: class retry-horizon.) *)
+Theorem C19_nil_only_after_success : forall iv maxd cancel pick0 calls atts r te, iv <> [] ->
+  do_with_retry iv maxd cancel pick0 calls = (atts, r, te) -> returns_nil r = true ->
+  exists l a, atts = l ++ [a] /\ Forall plain l /\ a_out a = OOk.
+Proof. exact nil_only_after_success. Qed.
+Print Assumptions C19_nil_only_after_success.
+
+(** the code before the fix a99379d: after maxRetryDuration "giving up" returned nil although
+    every attempt had failed *)
+Theorem C19_giving_up_returned_nil_orig_refuted : exists iv maxd calls atts r te,
   iv <> [] /\ all_positive iv = true /\
-  do_with_retry iv maxd None false calls = (atts, RGiveUpNil, te) /\ Forall plain atts /\ atts <> [].
-Proof. exact nil_means_success_refuted. Qed.
-Print Assumptions C19_nil_means_success_refuted.
+  do_with_retry iv maxd None false calls = (atts, r, te) /\ returns_nil_gen false r = true /\
+  Forall plain atts /\ atts <> [].
+Proof. exact giving_up_returned_nil_orig_refuted. Qed.
+Print Assumptions C19_giving_up_returned_nil_orig_refuted.
 
 (** ** (c) test CA *)
 Theorem C19_test_cert_never_returned : forall norm ca testca attempts outs ds d,
